@@ -19,7 +19,7 @@ RULE = ("endings = {orderly release, close (FIN and RST) after every byte offset
         "resource or held a session instance")
 ASSUMPTIONS = ["'at quiescence' = after the disconnect hook was observed and the worker/selector slot count settled, awaited with a 10 s watchdog (expiry = inconclusive unless a server thread died)",
                "connections whose handshake was refused are only required to see <= 1 hook call and a closed socket"]
-REQUIRED_REACH = ["ending_ok", "offset_endings", "resources_closed_once", "session_instances_dropped", "witness_unaffected", "timeout_endings", "security_endings", "callback_endings", "churn_connections_checked", "injected_yields", "application_hooks_that_raised", "resources_tracked_by_oneway_calls"]
+REQUIRED_REACH = ["ending_ok", "offset_endings", "resources_closed_once", "session_instances_dropped", "witness_unaffected", "timeout_endings", "security_endings", "callback_endings", "churn_connections_checked", "injected_yields", "application_hooks_that_raised", "resources_tracked_by_oneway_calls", "slow_hook_cases_ok"]
 SHARD_TIMEOUT = {"quick": 240, "thorough": 3000}
 
 
@@ -388,6 +388,51 @@ def run_case(fx, world, c, rec, r, sername):
     fx.wait_until(lambda: fx.live_connection_count() == base_live, 10.0)
 
 
+def slow_hook_case(fx, world, rec, r, sername):
+    """several connections end at about the same time while the application's disconnect hook of one of them takes longer than
+    COMMTIMEOUT: every one of them still gets its hook, once, and its cleanup"""
+    P = fx.P
+    ser = P.serializers.serializers[sername]
+    pay = {"slow_hook": True, "servertype": fx.servertype, "serializer": sername, "commtimeout": P.config.COMMTIMEOUT}
+    rec.case(("slow-hook", fx.servertype, sername, P.config.COMMTIMEOUT), nontrivial=True, sample=pay)
+    fx.wait_until(lambda: fx.live_connection_count() == 0, 10.0)
+    try:
+        victims = [open_victim(fx, ser, r.choice([1, 2]), 0, False, rec) for _ in range(4)]
+    except Exception as x:
+        rec.inconc("could not set up connections: %r" % (x,))
+        return
+    slow_serial = victims[0][1]
+    saved = fx.daemon.on_disconnect
+
+    def hook(conn):
+        if getattr(conn, "_vserial", None) == slow_serial:
+            time.sleep(P.config.COMMTIMEOUT * 2.5 + 0.2)       # a hook that takes its time (it logs to a database, say)
+    fx.daemon.on_disconnect = hook
+    try:
+        for c, _ in victims:
+            c.close()
+        ok = fx.wait_until(lambda: all(hook_count(fx, sn) >= 1 for _, sn in victims) and fx.live_connection_count() == 0, 15.0)
+        fx.wait_until(lambda: all(res.closed >= 1 for _, sn in victims for res in world.entry(sn)["tracked"]), 10.0)
+        time.sleep(0.01)
+    finally:
+        fx.daemon.on_disconnect = saved
+    for _, sn in victims:
+        hc = hook_count(fx, sn)
+        closes = [res.closed for res in world.entry(sn)["tracked"]]
+        if hc != 1:
+            rec.violation("disconnect-hook-count" if hc else "disconnect-hook-not-called", "4 connections ended together while the hook of connection %d was busy for %.2f s (COMMTIMEOUT %.2f): "
+                          "the hook ran %d time(s) for connection %d" % (slow_serial, P.config.COMMTIMEOUT * 2.5 + 0.2, P.config.COMMTIMEOUT, hc, sn), pay)
+            return
+        if any(n != 1 for n in closes):
+            rec.violation("tracked-resource-close-count", "slow-hook case: resources of connection %d closed %r times" % (sn, closes), pay)
+            return
+        world.entry(sn)["conn"] = None
+    if not ok:
+        rec.violation("slot-not-released", "slow-hook case: %s slot(s) still occupied" % fx.live_connection_count(), pay)
+        return
+    rec.count("slow_hook_cases_ok")
+
+
 # ---- churn: connections ending while others are being accepted (free-running threads, seeded yield injection) -------------------------
 class Churner(threading.Thread):
     def __init__(self, fx, sername, plan):
@@ -545,6 +590,8 @@ def run_shard(shard, rec):
             for off in offs:
                 c = {"ending": "timeout", "offset": off, "ntrack": r.choice([1, 2, 3]), "nuntrack": r.choice([0, 1]), "session": r.random() < 0.5, "witnesses": 0}
                 run_case(fx, world, c, rec, r, sername)
+            for _ in range(2 if rec.tier == "quick" else 10):
+                slow_hook_case(fx, world, rec, r, sername)
         finally:
             fx.stop()
         return
@@ -612,6 +659,10 @@ def replay(payload, rec):
     ct = c.pop("commtimeout", 0.0)
     fx, world = make_env(P, st, ct, c.pop("linger", 30.0))
     try:
+        if c.get("slow_hook"):
+            for _ in range(5):
+                slow_hook_case(fx, world, rec, gen.rng(0, "replay"), sername)
+            return
         run_case(fx, world, c, rec, gen.rng(0, "replay"), sername)
     finally:
         fx.stop()
